@@ -404,6 +404,93 @@ def r16f(ctx, rep, cr):
     rep.floor('R16f', 'Chain::append calls in TensorStateMachine', n, 2)
 
 
+def _ws_identity(f, defs, op, depth=8):
+    """(root local, field path) of a workspace value, looked through borrows, copies and Arc / Deref / clone calls"""
+    if op[0] == 'k':
+        return None
+    l, fields = op[1][0], tuple(A.place_fields(op[1]))
+    for _ in range(depth):
+        if 1 <= l <= f.argc:
+            break
+        d = A.single_def(defs, l)
+        if not d:
+            break
+        if d[2] == 'st':
+            rv = d[3][1]
+            pl = rv[1] if rv[0] == 'ref' else (rv[1][1] if rv[0] == 'use' and rv[1][0] != 'k' else None)
+            if pl is None:
+                break
+            fields = tuple(A.place_fields(pl)) + fields
+            l = pl[0]
+        elif d[2] == 'call' and re.search(r'Deref>::deref$|Clone>::clone$|AsRef<.*>>::as_ref$|Borrow<.*>>::borrow$', d[3].generic + ' ' + d[3].resolved) \
+                and d[3].args and d[3].args[0][0] != 'k':
+            a = d[3].args[0][1]
+            fields = tuple(A.place_fields(a)) + fields
+            l = a[0]
+        else:
+            break
+    return (l, fields)
+
+
+def r16g(ctx, rep, cr):
+    rep.rule('R16g', 'each workspace enters one block: every TransactionWorkspace::operations call in TensorChain (the operations that become '
+                     'the block\'s transactions) is reachable only through the Ok edge of TransactionWorkspace::mark_committing on the same '
+                     'workspace value — claimed in the function itself, or, for a workspace received as a parameter, at every call site '
+                     'before the call. mark_committing is the atomic Active→Committing claim; a check-then-use (is_active) lets the '
+                     'owner\'s own commit and a merging commit both include the workspace, and its writes appear in two blocks')
+    cg = A.CallGraph([cr])
+    OPS = ('re', r'TransactionWorkspace::operations$')
+    CLAIM = ('re', r'TransactionWorkspace::mark_committing$')
+    n = 0
+
+    def claimed_before(g, blocks, ident_of):
+        """is every block in `blocks` unreachable from g's entry once the Ok edges of the matching claims are cut?"""
+        gd, gu = A.Defs(g), A.Uses(g)
+        cut = set()
+        for m in A.calls_to(g, CLAIM):
+            if m.args and _ws_identity(g, gd, m.args[0]) == ident_of(g, gd):
+                cut |= set(A.call_outcome(g, m, gu).ok)
+        if not cut:
+            return False
+        R = A.reachable(g, [0], cut_edges=cut)
+        return not any(b in R for b in blocks)
+
+    for name, f in sorted(cr.fns.items()):
+        if not name.startswith('tensor_chain::TensorChain::') or '{closure' in name:
+            continue
+        ops = A.calls_to(f, OPS)
+        if not ops:
+            continue
+        defs = A.Defs(f)
+        for k, c in enumerate(ops):
+            n += 1
+            rep.analysed(f)
+            ident = _ws_identity(f, defs, c.args[0]) if c.args else None
+            if ident is None:
+                rep.unresolved_instance('R16g', f, 'operations#%d' % k, 'receiver not traced')
+                continue
+            if claimed_before(f, [c.bb], lambda g, gd, ident=ident: ident):
+                rep.holds('R16g', f, 'operations#%d' % k, 'claimed by mark_committing in the function')
+                continue
+            ok = False
+            if 1 <= ident[0] <= f.argc and not ident[1]:
+                pidx = ident[0] - 1
+                callers = [h for h in cg.redges.get(name, ()) if h in cr.fns]
+                ok = bool(callers)
+                for hn in callers:
+                    h = cr.fns[hn]
+                    for sc in cg.sites.get((hn, name), []):
+                        if pidx >= len(sc.args) or not claimed_before(h, [sc.bb], lambda g, gd, sc=sc, pidx=pidx: _ws_identity(g, gd, sc.args[pidx])):
+                            ok = False
+            if ok:
+                rep.holds('R16g', f, 'operations#%d' % k, 'parameter, claimed by mark_committing at every call site')
+            else:
+                rep.violation('R16g', f, 'unclaimed-workspace-operations', f.loc(c.line),
+                              'the operations of a workspace are taken into the block without a successful mark_committing on that workspace '
+                              'first: another commit can take the same workspace at the same time, and it is committed twice')
+    rep.floor('R16g', 'TransactionWorkspace::operations calls in TensorChain', n, 2)
+
+
 def run(ctx, rep):
     cr = ctx.crate('tensor_chain')
     r16a(ctx, rep, cr)
@@ -412,3 +499,4 @@ def run(ctx, rep):
     r16d(ctx, rep, cr)
     r16e(ctx, rep, cr)
     r16f(ctx, rep, cr)
+    r16g(ctx, rep, cr)
